@@ -17,7 +17,7 @@ use std::sync::Arc;
 pub const T1_SIZE: i64 = 8;
 pub const T2_SIZE: i64 = 10;
 
-/// t1(a int[0,10] PRIMARY KEY, b int[-5,5], c float[0,100], d text{x,y,z}, e optional int[0,3]);  t2(a int[0,10], f float[-10,10], g text{x,y,w});
+/// t1(a int[0,10] PRIMARY KEY, b int[-5,5], c float[0,100], d text{x,y,z}, e optional int[0,3]);  t2(a int[0,10] FOREIGN KEY (repeats, not unique), f float[-10,10], g text{x,y,w});
 /// t3(k int[0,3] UNIQUE, h int[0,100])
 pub fn world2() -> Hierarchy<Arc<Relation>> {
     let t1: Relation = Relation::table().name("t1").schema(vec![
@@ -26,7 +26,7 @@ pub fn world2() -> Hierarchy<Arc<Relation>> {
         ("e", DataType::optional(DataType::integer_interval(0, 3)), None),
     ].into_iter().collect::<qrlew::relation::Schema>()).size(T1_SIZE).build();
     let t2: Relation = Relation::table().name("t2").schema(vec![
-        ("a", DataType::integer_interval(0, 10), None), ("f", DataType::float_interval(-10., 10.), None),
+        ("a", DataType::integer_interval(0, 10), Some(Constraint::ForeignKey)), ("f", DataType::float_interval(-10., 10.), None),
         ("g", DataType::text_values(["x".to_string(), "y".to_string(), "w".to_string()]), None),
     ].into_iter().collect::<qrlew::relation::Schema>()).size(T2_SIZE).build();
     let t3: Relation = Relation::table().name("t3").schema(vec![
@@ -176,6 +176,11 @@ pub fn gen_sql(rng: &mut Rng) -> (String, bool) {
                                              6 => format!("sum({c}) + count({c})"), 7 => format!("1 + max({c}) * 2"), _ => format!("count(DISTINCT {c})") };
                 format!("{a} AS m{i}") }).collect();
             match (key, rng.below(4)) {
+                // two grouping keys: neither is the sole key, so only a key that is unique in the input stays unique
+                (Some(k), 0) if rng.chance(1, 2) => { let k2 = pick_col(rng, &s, "it").map(|c| c.0.clone()).unwrap_or(k.clone());
+                    if k2 == k { (format!("SELECT {k} AS k, {} FROM {}{where_} GROUP BY {k}", aggs.join(", "), s.from), false) }
+                    else if rng.chance(1, 3) { (format!("SELECT {k} AS k, {k2} AS k2 FROM {}{where_} GROUP BY {k}, {k2}", s.from), false) }
+                    else { (format!("SELECT {k} AS k, {k2} AS k2, {} FROM {}{where_} GROUP BY {k}, {k2}", aggs.join(", "), s.from), false) } }
                 (Some(k), 0) | (Some(k), 1) => { let having = if rng.chance(1, 4) { " HAVING count(*) > 1" } else { "" }; (format!("SELECT {k} AS k, {} FROM {}{where_} GROUP BY {k}{having}", aggs.join(", "), s.from), false) }
                 (Some(k), 3) if rng.chance(1, 3) => (format!("SELECT {k} AS k FROM {}{where_} GROUP BY {k}", s.from), false),
                 (Some(k), 2) if !k.contains('.') => (format!("SELECT {k} + 1 AS k, {} FROM {}{where_} GROUP BY {k} + 1", aggs.join(", "), s.from), false),
